@@ -1,58 +1,81 @@
 (** C05 property theorems (partial: the driver loop is proved against a generator semantics that is an oracle;
-    cancellation of the returned Deferred is not modelled).  For every generator tree [g] (in particular
-    [gen_of s] for every structured body [s]), every assignment of outcomes to the awaited Deferreds, every set
-    of Deferreds fired before the call and every order in which the others fire. *)
+    nested inlineCallbacks and returnValue are outside the language).  For every generator tree [g] (in particular
+    [gen_of s] for every structured body [s]), every assignment of outcomes to the awaited Deferreds, every
+    canceller behaviour per Deferred, every set of Deferreds fired before the call and every schedule of
+    firings and of cancellations of the returned Deferred. *)
 From Coq Require Import List Arith ZArith Bool.
 From C05 Require Import Model Proofs.
 Import ListNotations.
 
 (** the values / exceptions observed inside the function and the final result are those of the synchronous
-    reading of the same function; in particular they do not depend on the arrival order.
-    FULL STATEMENT (C05) additionally covers cancellation (cancel_cancels_exactly_awaited,
-    cancel_then_outcome_fires_once): not modelled. *)
-Theorem inline_matches_sync_partial : forall assign pre g sched r w,
-  run assign pre g sched = (Finished r, w) ->
-  sync assign g [] [] = (r, seen w).
+    reading of the same function, in which every awaited Deferred stands for its outcome: its predetermined one,
+    or — if the function was cancelled while waiting on it — whatever its canceller made of it (CancelledError when
+    the canceller does nothing).  In particular they depend neither on the arrival order nor on anything else the
+    cancellation protocol does (status.deferred swapping, re-entrant resumption from inside cancel()). *)
+Theorem inline_matches_sync_partial : forall assign canc pre g sched r w,
+  run assign canc pre g sched = (Finished r, w) ->
+  sync (eff assign canc (cancelled w)) g [] [] = (r, own (seen w)).
 Proof.
-  intros assign pre g sched r w H. rewrite <- (run_sync assign pre g sched). rewrite H. reflexivity.
+  intros assign canc pre g sched r w H.
+  rewrite <- (run_sync assign canc (cancelled w) pre g sched); rewrite H; [reflexivity | apply agrees_self].
 Qed.
 Print Assumptions inline_matches_sync_partial.
 
-(** while suspended, the part already executed is a prefix of the synchronous execution: continuing
-    synchronously from the suspension point gives the synchronous result *)
-Theorem suspended_prefix_of_sync : forall assign pre g sched d k w,
-  run assign pre g sched = (Suspended d k, w) ->
-  sync assign (GYieldD d k) (consumed w) (seen w) = sync assign g [] [].
+(** while suspended, the part already executed is a prefix of that synchronous execution *)
+Theorem suspended_prefix_of_sync : forall assign canc pre g sched d k w,
+  run assign canc pre g sched = (Suspended d k, w) ->
+  sync (eff assign canc (cancelled w)) (GYieldD d k) (consumed w) (own (seen w))
+  = sync (eff assign canc (cancelled w)) g [] [].
 Proof.
-  intros assign pre g sched d k w H. rewrite <- (run_sync assign pre g sched). rewrite H. reflexivity.
+  intros assign canc pre g sched d k w H.
+  rewrite <- (run_sync assign canc (cancelled w) pre g sched); rewrite H; [reflexivity | apply agrees_self].
 Qed.
 Print Assumptions suspended_prefix_of_sync.
 
-(** progress: the driver is suspended only on a Deferred that has not fired, so once every Deferred of the
-    schedule has fired the function has run to completion unless it awaits one outside the schedule *)
-Theorem suspended_only_on_unfired : forall assign pre g sched d k w,
-  run assign pre g sched = (Suspended d k, w) -> ~ In d pre /\ ~ In d sched.
+(** progress: the driver is suspended only on a Deferred that has not fired *)
+Theorem suspended_only_on_unfired : forall assign canc pre g sched d k w,
+  run assign canc pre g sched = (Suspended d k, w) -> ~ In d pre /\ ~ In (SFire d) sched.
 Proof.
-  intros assign pre g sched d k w H. destruct (run_fired assign pre g sched) as [Hw Hf].
-  rewrite H in Hw, Hf. unfold waits_ok in Hw. cbn [fst snd] in Hw, Hf.
-  assert (Hn : ~ In d (fired w)) by (intros Hin; apply (mem_In d (fired w)) in Hin; congruence).
-  split; intros Hin; apply Hn, Hf; [left | right]; exact Hin.
+  intros assign canc pre g sched d k w H. pose proof (run_WF assign canc pre g sched) as [_ HW].
+  pose proof (run_fired assign canc pre g sched d) as Hf. rewrite H in HW, Hf. cbn [fst snd] in *.
+  split; intros Hin; apply HW, Hf; [left | right]; exact Hin.
 Qed.
 Print Assumptions suspended_only_on_unfired.
 
-(** the returned Deferred fires once: after it has fired, further firings of awaited Deferreds change neither
-    the result nor what the function observed *)
-Theorem result_fires_once : forall assign d r w,
-  fst (fire assign d (Finished r, w)) = Finished r /\ seen (snd (fire assign d (Finished r, w))) = seen w.
-Proof. exact fire_finished. Qed.
+(** cancelling the returned Deferred while the function waits on D[d] cancels exactly D[d] — its canceller is
+    called, nothing else is — and the function is resumed with D[d]'s outcome *)
+Theorem cancel_cancels_exactly_awaited : forall assign canc d k w,
+  cancelled (snd (cancel assign canc (Suspended d k, w))) = d :: cancelled w /\
+  cancel assign canc (Suspended d k, w) =
+    drive assign canc (k (if mem d (consumed w) then Val VNone else cancel_outcome (canc d)))
+          (mkw (d :: fired w) (d :: cancelled w) (d :: consumed w) (Cancelled d :: seen w)).
+Proof. exact cancel_exactly. Qed.
+Print Assumptions cancel_cancels_exactly_awaited.
+
+Theorem each_deferred_cancelled_at_most_once : forall assign canc pre g sched,
+  NoDup (cancelled (snd (run assign canc pre g sched))).
+Proof. exact run_cancel_nodup. Qed.
+Print Assumptions each_deferred_cancelled_at_most_once.
+
+(** the returned Deferred fires once: after the function has finished, neither further firings nor cancel()
+    change the result, what the function observed, or the set of cancelled Deferreds
+    (cancel_then_outcome_fires_once = this + inline_matches_sync_partial, whatever the cancelled Deferred's
+    canceller does) *)
+Theorem result_fires_once : forall assign canc o r w,
+  fst (step assign canc (Finished r, w) o) = Finished r /\
+  own (seen (snd (step assign canc (Finished r, w) o))) = own (seen w) /\
+  cancelled (snd (step assign canc (Finished r, w) o)) = cancelled w.
+Proof. exact step_finished. Qed.
 Print Assumptions result_fires_once.
 
-(** a non-trivial program: a failure caught, a finally clause that awaits, a loop, a return inside try/finally *)
+(** a non-trivial program: a failure caught, a finally clause that awaits, a loop, a return inside try/finally;
+    cancelled while waiting on D[1], whose canceller does nothing *)
 Example nontrivial_program :
   let s := SSeq (STry (SAwait 0) (SMark 7))
-                (SFinally (SLoop 2 (SAwait 1)) (SSeq (SAwait 2) (SReturn 5))) in
+                (SFinally (STry (SLoop 2 (SAwait 1)) (SMark 8)) (SSeq (SAwait 2) (SReturn 5))) in
   let assign := fun d => match d with 0 => Exc (EUser 3) | _ => Val (VInt (Z.of_nat d)) end in
-  fst (run assign [2] (gen_of s) [1; 0]) = Finished (Val (VInt 5))
-  /\ rev (seen (snd (run assign [2] (gen_of s) [1; 0])))
-     = [SawExc (EUser 3); Mark 7; SawVal (VInt 1); SawVal VNone; SawVal (VInt 2)].
-Proof. vm_compute. split; reflexivity. Qed.
+  let p := run assign (fun _ => CNothing) [2] (gen_of s) [SFire 0; SCancel; SFire 1] in
+  fst p = Finished (Val (VInt 5))
+  /\ rev (seen (snd p)) = [SawExc (EUser 3); Mark 7; Cancelled 1; SawExc ECancelled; Mark 8; SawVal (VInt 2)]
+  /\ cancelled (snd p) = [1].
+Proof. vm_compute. repeat split; reflexivity. Qed.
